@@ -2490,6 +2490,7 @@ class InForeignContentPhase(Phase):
                         "fediffuselighting": "feDiffuseLighting",
                         "fedisplacementmap": "feDisplacementMap",
                         "fedistantlight": "feDistantLight",
+                        "fedropshadow": "feDropShadow",
                         "feflood": "feFlood",
                         "fefunca": "feFuncA",
                         "fefuncb": "feFuncB",
